@@ -183,14 +183,15 @@ impl Server {
                 // prioritize nodes supporting signed peers..
                 let mut nodes = signing_peers_routing_table.closest(target).to_vec();
                 if nodes.len() < MAX_BUCKET_SIZE_K {
-                    nodes.extend_from_slice(
-                        &routing_table
-                            .closest(target)
-                            .iter()
-                            .take(MAX_BUCKET_SIZE_K - nodes.len())
-                            .cloned()
-                            .collect::<Vec<_>>(),
-                    );
+                    // A node can be in both tables, do not list it twice.
+                    for node in routing_table.closest(target).iter() {
+                        if nodes.len() >= MAX_BUCKET_SIZE_K {
+                            break;
+                        }
+                        if !nodes.iter().any(|n| n.id() == node.id()) {
+                            nodes.push(node.clone());
+                        }
+                    }
                 }
 
                 MessageType::Response(ResponseSpecific::FindNode(FindNodeResponseArguments {
